@@ -454,8 +454,8 @@ class Glob(Generic[AnyStr]):
             self.stars = b'**'  # type: AnyStr
             self.sep = b'\\' if forcewin else b'/'  # type: AnyStr
             self.seps = (b'/', self.sep) if forcewin else (self.sep,)  # type: tuple[AnyStr, ...]
-            self.re_pathlib_norm = _RE_WIN_PATHLIB_DOT_NORM[ptype]  # type: Pattern[AnyStr]  # type: ignore[assignment]
-            self.re_no_dir = _wcparse.RE_WIN_NO_DIR[ptype]  # type: Pattern[AnyStr]  # type: ignore[assignment]
+            self.re_pathlib_norm = (_RE_WIN_PATHLIB_DOT_NORM if forcewin else _RE_PATHLIB_DOT_NORM)[ptype]  # type: Pattern[AnyStr]  # type: ignore[assignment]
+            self.re_no_dir = (_wcparse.RE_WIN_NO_DIR if forcewin else _wcparse.RE_NO_DIR)[ptype]  # type: Pattern[AnyStr]  # type: ignore[assignment]
         else:
             ptype = util.UNICODE
             self.current = '.'
@@ -464,8 +464,8 @@ class Glob(Generic[AnyStr]):
             self.stars = '**'
             self.sep = '\\' if forcewin else '/'
             self.seps = ('/', self.sep) if forcewin else (self.sep,)
-            self.re_pathlib_norm = _RE_WIN_PATHLIB_DOT_NORM[ptype]  # type: ignore[assignment]
-            self.re_no_dir = _wcparse.RE_WIN_NO_DIR[ptype]  # type: ignore[assignment]
+            self.re_pathlib_norm = (_RE_WIN_PATHLIB_DOT_NORM if forcewin else _RE_PATHLIB_DOT_NORM)[ptype]  # type: ignore[assignment]
+            self.re_no_dir = (_wcparse.RE_WIN_NO_DIR if forcewin else _wcparse.RE_NO_DIR)[ptype]  # type: ignore[assignment]
 
         temp = os.fspath(root_dir) if root_dir is not None else self.current
         if not isinstance(temp, bytes if ptype else str):
